@@ -362,6 +362,37 @@ fn find_cutoff(pars: &[f64], max_cutoff: usize) -> usize {
     cutoff
 }
 
+/// Verification hooks: add-only access to the private likelihood, gradient and
+/// cutoff functions and to the fitted state. Only compiled with `--features verif-hooks`.
+#[cfg(feature = "verif-hooks")]
+pub mod verif_hooks {
+    use super::CoverageHistogram;
+    use crate::ska_dict::bit_encoding::UInt;
+
+    /// Mixture model log-likelihood (private `log_likelihood`)
+    pub fn log_likelihood(pars: &[f64], counts: &[f64]) -> f64 {
+        super::log_likelihood(pars, counts)
+    }
+
+    /// Analytic gradient of the log-likelihood (private `grad_ll`)
+    pub fn grad_ll(pars: &[f64], counts: &[f64]) -> Vec<f64> {
+        super::grad_ll(pars, counts)
+    }
+
+    /// Integer cutoff finder (private `find_cutoff`)
+    pub fn find_cutoff(pars: &[f64], max_cutoff: usize) -> usize {
+        super::find_cutoff(pars, max_cutoff)
+    }
+
+    /// Fitted state `(w0, c, cutoff, counts)` of a [`CoverageHistogram`]
+    pub fn fit_state<IntT>(cov: &CoverageHistogram<IntT>) -> (f64, f64, usize, Vec<u32>)
+    where
+        IntT: for<'a> UInt<'a>,
+    {
+        (cov.w0, cov.c, cov.cutoff, cov.counts.clone())
+    }
+}
+
 #[cfg(test)]
 mod tests {
     use super::*;
